@@ -395,8 +395,16 @@ def rand_sweep(cirq, rng, depth):
             return cirq.Points(key, [rng.choice([0.0, 0.5, -1.25, 3.0, 0.1, 1e-3]) for _ in range(rng.choice([0, 1, 2, 3, 5]))], metadata=md)
         if k < 0.8:
             return cirq.Linspace(key, rng.choice([0.0, -1.0, 0.25]), rng.choice([1.0, 2.5, 0.0]), rng.choice([1, 2, 3, 7]))
-        if k < 0.9:
+        if k < 0.86:
             return cirq.UnitSweep
+        if k < 0.95:
+            # explicit lists of assignments, with the same parameters in every point or not
+            names = rng.sample(['a', 'b', 'c'], rng.choice([1, 2]))
+            pts = []
+            for _ in range(rng.choice([1, 2, 3])):
+                use = names if rng.random() < 0.75 else rng.sample(['a', 'b', 'c'], rng.choice([1, 2]))
+                pts.append(cirq.ParamResolver({nm: rng.choice([0.0, 0.5, -1.25, 3.0]) for nm in use}))
+            return cirq.ListSweep(pts)
         return cirq.Points(key, [rng.choice([1, 2, 7])])
     kids = [rand_sweep(cirq, rng, depth - 1) for _ in range(rng.choice([1, 2, 2, 3]))]
     op = rng.choice(['product', 'zip', 'ziplongest', 'concat'])
@@ -449,7 +457,8 @@ def check_sweeps(ctx, cirq, cg, n):
                 kids = getattr(sw, 'sweeps', None) or getattr(sw, 'factors', None) or []
                 return [m for k_ in kids for m in metas(k_)]
 
-            if metas(back) != metas(s):
+            # (a ListSweep comes back as a zip of points: only the metadata that exist are compared)
+            if [m for m in metas(back) if m != 'None'] != [m for m in metas(s) if m != 'None']:
                 ctx.report_witness('sweep:metadata', 'sweep metadata (device parameters) is not preserved by the sweep round trip', dict(rep, impl_out=[metas(back)], spec_out=[metas(s)]))
             if not same or len(back) != len(s) or back.keys != s.keys:
                 ctx.report_witness('sweep:roundtrip', 'sweep_from_proto(sweep_to_proto(s)) does not denote the assignments of s', dict(rep, impl_out=[repr(back), got[:6]], spec_out=[repr(s), want[:6]]))
